@@ -23,6 +23,8 @@ EXPLANATION = (
 EXPLANATION_ADDED = (' (R4 also) the sky families that answer without their pixel image (point, line, text) give the same answer term as their pixel counterpart: constant False of the shape of the queried positions, complemented when excluded.'
                      ' (R5) the scale/angle helper shared by both directions is the one C07.R1 decides (north offset of the coordinate itself, in its own frame with its attributes).')
 EXPLANATION += EXPLANATION_ADDED
+EXPLANATION_ADDED2 = (" (R3b) every region constructor stores the meta/visual object it is handed (the conversions' copies are the ones that arrive).")
+EXPLANATION += EXPLANATION_ADDED2
 TRUSTED = ['wcs.world_to_pixel(wcs.pixel_to_world(x, y)) = (x, y) and conversely (invertible WCS)',
            'astropy unit algebra: q.to(U).value = q/U; Angle(q, unit) converts a Quantity',
            'Meta.copy()/deepcopy produce independent objects']
